@@ -11,9 +11,10 @@ CONSTANTS
   Planned = FALSE
   MaxPlan = 36
   InitStores <- StoresDeployed
+  LateStart = FALSE
   LogSched = FALSE
   KeepLog = TRUE
-  OpMenu <- MenuConcA
+  OpMenu <- MenuConcAX
   EditMenu <- EditsNone
   PreMenu <- PreDeployedA
   Objs <- AllObjs
